@@ -220,11 +220,21 @@ func cmdCheck(args []string) int {
 
 	reg := loadRegistry(*verifDir)
 	known := loadKnown(filepath.Join(*verifDir, "known_findings.txt"))
-	knownObl := map[string]knownFinding{}
+	var knownList []knownFinding
 	for _, k := range known {
 		if k.Kind == "finding" && (k.Property == *prop || *prop == "") {
-			knownObl[k.Obligation] = k
+			knownList = append(knownList, k)
 		}
+	}
+	printedKnown := map[string]bool{}
+	matchKnown := func(name string) (knownFinding, bool) {
+		for _, k := range knownList {
+			pat := "^" + strings.ReplaceAll(regexp.QuoteMeta(k.Obligation), `\*`, ".*") + "$"
+			if ok, _ := regexp.MatchString(pat, name); ok {
+				return k, true
+			}
+		}
+		return knownFinding{}, false
 	}
 	nProved, nKnown := 0, 0
 	var solverSecs float64
@@ -246,9 +256,12 @@ func cmdCheck(args []string) int {
 			nProved++
 			bySolver[r.Solver]++
 		default:
-			if kf, ok := knownObl[r.Obl.Name]; ok {
+			if kf, ok := matchKnown(r.Obl.Name); ok {
 				nKnown++
-				fmt.Printf("KNOWN-FINDING: property=%s %s\n", *prop, kf.Text)
+				if !printedKnown[kf.Text] {
+					printedKnown[kf.Text] = true
+					fmt.Printf("KNOWN-FINDING: %s\n", kf.Text)
+				}
 				continue
 			}
 			exit = 1
